@@ -100,6 +100,14 @@ impl<'a> AttributeDecoderContext<'a> {
 pub trait EncodeAttributeValue {
     spec fn wire(&self, enc: Seq<u8>) -> Seq<u8>;
     spec fn encodable(&self, enc: Seq<u8>) -> bool;
+    // value bytes after `post_encode` (the value unchanged for everything but integrity / fingerprint attributes)
+    spec fn post_wire(&self, enc: Seq<u8>, val: Seq<u8>) -> Seq<u8>;
+    spec fn post_ok(&self, enc: Seq<u8>, val: Seq<u8>) -> bool;
+    fn post_encode(&self, ctx: AttributeEncoderContext) -> (r: Result<(), StunError>)
+        ensures
+            self.post_wire(ctx.encoded_msg@, old(ctx.raw_value)@).len() == old(ctx.raw_value)@.len(),
+            r is Ok <==> self.post_ok(ctx.encoded_msg@, old(ctx.raw_value)@),
+            r is Ok ==> final(ctx.raw_value)@ == self.post_wire(ctx.encoded_msg@, old(ctx.raw_value)@);
     fn encode(&self, ctx: AttributeEncoderContext) -> (r: Result<usize, StunError>)
         // (that the value buffer keeps its length is a fact of Rust's `&mut [u8]`, not a property an implementation can
         // break; the caller - unit codec - takes it from the type, it is not restated here)
@@ -202,6 +210,14 @@ impl Fingerprint {
 //@spec
     ensures r == (self is Decodable && self->Decodable_0.0 == crc32_iso_hdlc(input@)),
 //@end
+}
+impl EncodeAttributeValue for Fingerprint {
+    open spec fn wire(&self, enc: Seq<u8>) -> Seq<u8> { seq![0u8, 0u8, 0u8, 0u8] }   // placeholder until post_encode
+    open spec fn encodable(&self, enc: Seq<u8>) -> bool { self is Encodable }
+    open spec fn post_wire(&self, enc: Seq<u8>, val: Seq<u8>) -> Seq<u8> {
+        if self is Encodable && val.len() >= 4 { be32_seq((crc32_iso_hdlc(enc) ^ 0x5354_554eu32) as int) + val.subrange(4, val.len() as int) } else { val }
+    }
+    open spec fn post_ok(&self, enc: Seq<u8>, val: Seq<u8>) -> bool { self is Encodable && val.len() >= 4 }
     // EncodeAttributeValue::post_encode (overrides the default): the CRC of everything before the attribute, with the
     // header length already covering it (MessageEncoder::encode writes the length first), XOR 0x5354554e, big-endian
 //@item stun_rs :: mod attributes > mod stun > mod fingerprint > impl EncodeAttributeValue for Fingerprint > fn post_encode
@@ -214,10 +230,6 @@ impl Fingerprint {
         r is Ok ==> final(ctx.raw_value)@.subrange(0, 4) == be32_seq((crc32_iso_hdlc(ctx.encoded_msg@) ^ 0x5354_554eu32) as int)
             && (forall|i: int| 4 <= i < old(ctx.raw_value)@.len() ==> final(ctx.raw_value)@[i] == old(ctx.raw_value)@[i]),
 //@end
-}
-impl EncodeAttributeValue for Fingerprint {
-    open spec fn wire(&self, enc: Seq<u8>) -> Seq<u8> { seq![0u8, 0u8, 0u8, 0u8] }   // placeholder until post_encode
-    open spec fn encodable(&self, enc: Seq<u8>) -> bool { self is Encodable }
 //@item stun_rs :: mod attributes > mod stun > mod fingerprint > impl EncodeAttributeValue for Fingerprint > fn encode
 //@tags C10 C01 C14
 //@rules R5P R16
